@@ -927,3 +927,12 @@ SPECS["C12"]["theorems"] += [
 SPECS["C12"]["level_text"] += (" Props/C12A (track apigaps): inner()/into_inner() return the bytes the view was built from (printed and compared on every "
     "view); Tag as the crate stores it (4 bytes): u32 <-> Tag <-> [u8;4] round trips, Ord/PartialOrd = order of the little-endian values (op `tag a b` "
     "of the tlvview family: every From/Into impl, new, new_from_u32, value, cmp, partial_cmp, <, == on pairs whose byte order and value order differ).")
+# vouched_time: VouchedTime::new_or_die / now_or_die (Model/VouchedTimeApi.lean)
+SPECS["C14"]["lean_modules"] += ["Woodpile.Props.C14A"]
+SPECS["C14"]["theorems"] += [
+    "Woodpile.Props.C14A.new_or_die_cases",
+    "Woodpile.Props.C14A.new_or_die_rule",
+    "Woodpile.Props.C14A.now_or_die_same_rule",
+]
+SPECS["C14"]["level_text"] += (" Props/C14A (track apigaps): the _or_die constructors (ops new_or_die / now_or_die of the vtime family) return a value "
+    "exactly inside the same window and die everywhere else; never a VouchedTime outside the rule.")
